@@ -142,9 +142,17 @@ func runC08(c *Ctx) {
 		}
 	}
 	// R4c: imported keys are copied verbatim
+	c08Verbatim(c, p, "R4")
+}
+
+// c08Verbatim: imported keys / node ids are the caller's bytes (shared by C02:
+// a client configured with a different key must fail, so the configured bytes
+// themselves must reach the transcript and the MAC key).
+func c08Verbatim(c *Ctx, p *Prog, rule string) {
+	p.prov()
 	for _, k := range []string{"common/ntor:NewPublicKey", "common/ntor:NewNodeID"} {
 		fn := p.Func(k)
-		ob := c.Obl("R4", k+"#verbatim", "an imported key / node id is the caller's bytes, copied verbatim exactly once (the transcript must hash the bytes that were supplied)")
+		ob := c.Obl(rule, k+"#verbatim", "an imported key / node id is the caller's bytes, copied verbatim exactly once (the transcript must hash the bytes that were supplied)")
 		if fn == nil {
 			ob.Undecide("not found")
 			continue
